@@ -305,6 +305,19 @@ pub fn run(tier: Tier) -> i32 {
                     }
                 }
             }
+            // the lines carry trailing comments in rotation (nothing, a path ending in a backslash,
+            // an opener of a block comment, a quote): a comment ends with its line and means nothing
+            let salt = s.iter().fold(3usize, |h, i| h.wrapping_mul(7).wrapping_add(*i));
+            let lines: Vec<String> = lines
+                .into_iter()
+                .enumerate()
+                .map(|(k, l)| match (salt + k) % 5 {
+                    1 => format!("{} ; table at C:\\DATA\\", l),
+                    2 => format!("{} // see /* below", l),
+                    3 => format!("{} ; \"quoted", l),
+                    _ => l,
+                })
+                .collect();
             let hint = format!("seg={:?}/sequence", seg);
             check(seg, lines, expect, hint, if seg == Seg::D { ram } else { 0 });
         }
